@@ -69,7 +69,7 @@ def obs (w : World) : Json :=
         Json.bool t.processed, Json.bool t.hasNext, Json.bool t.errorHandled,
         Json.arr (t.nextTasks.map fun (a, b) => Json.arr #[Json.str a, Json.str b]).toArray]).toArray),
     ("pending", Json.arr (w.pending.map fun i => Json.str (itemStr i)).toArray),
-    ("backlog", Json.arr (w.backlog.map Json.str).toArray),
+    ("backlog", Json.arr (w.backlog.map fun c => Json.str c.target).toArray),
     ("crashed", Json.bool w.crashed)]
 
 /-- stateless: the whole event list is replayed (runs are short) -/
